@@ -795,6 +795,16 @@ func (b *DijkstraTransactionBody) UnmarshalCBOR(cborData []byte) error {
 	return nil
 }
 
+// MarshalCBOR returns the original bytes of a decoded transaction body, so that a
+// transaction re-assembled from its stored components (e.g. one taken from a block)
+// keeps its original encoding and therefore its fee-relevant size
+func (b *DijkstraTransactionBody) MarshalCBOR() ([]byte, error) {
+	if b.Cbor() != nil {
+		return b.Cbor(), nil
+	}
+	return cbor.EncodeGeneric(b)
+}
+
 func checkMultiAssetDuplicateKeys[T int64 | uint64 | *big.Int](
 	assets *common.MultiAsset[T],
 ) error {
